@@ -288,6 +288,9 @@ func (ex *Exec) freshResults(fn *types.Func, resT types.Type, hint string) []*Va
 // callFunc dispatches a call to a known function object.
 func (ex *Exec) callFunc(st *State, fn *types.Func, recv *Val, args []*Val, call *ast.CallExpr, sc *SpecCtx, resT types.Type) []*Val {
 	ref := funcRef(fn)
+	savedCall := ex.curCall
+	ex.curCall = call
+	defer func() { ex.curCall = savedCall }()
 	pos := token.NoPos
 	if call != nil {
 		pos = call.Pos()
@@ -484,6 +487,11 @@ func (ex *Exec) calleeCtx(c *Contract, fn *types.Func, recv *Val, args []*Val, o
 	sc := &SpecCtx{old: old, binds: map[string]*Val{}, subst: map[types.Object]*Val{}}
 	if fn.Pkg() != nil {
 		sc.pkg = fn.Pkg()
+	}
+	if fi := ex.eng.findFunc(funcRef(fn)); fi != nil && fi.Body != nil && fi.Pkg != nil {
+		// type parameters and imports of the callee's file are visible in its contract
+		sc.scope = fi.Pkg.Types.Scope().Innermost(fi.Body.Lbrace + 1)
+		sc.pos = fi.Body.Lbrace + 1
 	}
 	sig := fn.Type().(*types.Signature)
 	if sig.Recv() != nil && recv != nil {
@@ -906,6 +914,9 @@ func (ex *Exec) specForm(st *State, name string, call *ast.CallExpr, sc *SpecCtx
 			return one(ex.boolVal(and(eq(a.kid("dom").S, b.kid("dom").S), eq(a.kid("card").S, b.kid("card").S))))
 		}
 		return one(ex.boolVal("true"))
+	case "clockNow":
+		c := ex.eval(st, call.Args[0], sc)
+		return one(ex.clockNow(st, c, nil, sc))
 	case "toInt":
 		// mathematical integer of an integer-typed value (no conversion semantics)
 		v := ex.eval(st, call.Args[0], sc)
